@@ -446,6 +446,19 @@ class Check:
         axioms = sorted(set(re.findall(r"^([A-Za-z0-9_.']+)\s*:", atext, re.M)))
         self.cov["print_assumptions"] = {"closed": closed, "axioms": axioms,
                                          "text": atext.strip()[-3000:]}
+        if self.tier == "thorough" and ok2:
+            # independent re-check of the compiled files this property depends on
+            t0 = time.time()
+            p = subprocess.run(["timeout", "3000", "coqchk", "-silent", "-o", "-Q", "theories", "DtlsV",
+                                "DtlsV.Properties.%s" % self.prop], cwd=COQ, stdout=subprocess.PIPE,
+                               stderr=subprocess.STDOUT, text=True, errors="replace")
+            summ = p.stdout[p.stdout.find("CONTEXT SUMMARY"):] if "CONTEXT SUMMARY" in p.stdout else p.stdout[-1500:]
+            self.cov["coqchk"] = {"rc": p.returncode, "wall_s": round(time.time() - t0, 1),
+                                  "summary": " ".join(summ.split())[:1500]}
+            log("[coqchk %s] rc=%d %.1fs" % (self.prop, p.returncode, time.time() - t0))
+            if p.returncode != 0:
+                self.proof_error = ("coqchk", p.stdout[-3000:])
+                return False
         self.cov["trusted_base"] = [
             "Coq 8.16.1 kernel (coqc; vm_compute used, native_compute not used)",
             "Print Assumptions: %d/%d theorems closed under the global context; axioms: %s"
